@@ -214,6 +214,12 @@ func freshForm1(f *ast.File, fd *ast.FuncDecl, text string, off func(token.Pos) 
 					if id, isId := l.(*ast.Ident); isId && id.Obj == itId.Obj {
 						ok = false
 					}
+					// the shared field must stay what the literal made it
+					if ls, isSel := l.(*ast.SelectorExpr); isSel && ls.Sel.Name == fkey {
+						if id, isId := ls.X.(*ast.Ident); isId && id.Obj == itId.Obj {
+							ok = false
+						}
+					}
 				}
 			}
 			return true
